@@ -1,4 +1,11 @@
-"""C17 — extrema_interpolated_phase vs Model/Phase.v (exact rationals, quarter-turn units)."""
+"""C17 — extrema_interpolated_phase vs Model/Phase.v (exact rationals, quarter-turn units).
+
+The Coq runner `bad_phase` reports a case when the model's phase differs from the implementation's OR when the case
+does not satisfy `wf_cpsb` (the boolean form of the precondition wf_cps of every C17 theorem).  Only cases inside the
+class the property quantifies over (`out_of_domain` below; Coq: cps_domain, with cps_domain_wf : cps_domain c -> wf_cps c)
+are sent to Coq, so the second kind of report means the theorems do not cover a generated input.  To tell the two apart
+on a reported case, evaluate the shard with `bad_phase_values` / `bad_phase_wf` (Model/Phase.v) instead of `bad_phase`."""
+import bisect
 import itertools
 import math
 import numpy as np
@@ -12,14 +19,26 @@ COQ_HEADER = ('From Coq Require Import List ZArith NArith QArith. Import ListNot
 COQ_RUNNER = 'bad_phase'
 COQ_TYPES = ('nat * list nat * list nat * option (list nat) * option (list nat)', 'result (list (option Z))')
 SHARD = 150
+ENUM_N = {'quick': 7, 'thorough': 8}      # arrays up to this length: every midpoint placement is enumerated
+MAX_N = {'quick': 9, 'thorough': 11}      # arrays up to this length: every extrema placement is enumerated
 RULE = ('(a) cyclepoints from find_extrema / find_zerox on generated signals, boundary in {0,1,5}, first_extrema in {peak, trough, '
         'None}, with both / only rise / only decay / no midpoints; (b) every placement of alternating extrema (>= 2 samples apart, either kind first, '
-        'extrema allowed on the first/last samples) on arrays up to length 9 (quick) / 11 (thorough), without midpoints and with '
-        'midpoints anywhere in their flank (coinciding with extrema included), optionally a midpoint before the first / after the last extremum, both or only one midpoint kind supplied. non-trivial = >= 3 extrema')
-EXHAUSTIVE = {'quick': True, 'thorough': True}
-ASSUMPTIONS = ['consecutive extrema at least two samples apart; peaks and troughs alternate',
+        'extrema allowed on the first/last samples) on arrays up to length 9 (quick) / 11 (thorough) without midpoints; (c) on arrays up to '
+        'length 7 (quick) / 8 (thorough) additionally EVERY midpoint placement: one midpoint per flank anywhere in its flank (coinciding with '
+        'either extremum included), no / every possible midpoint before the first and after the last extremum, with both kinds, only the '
+        'rises or only the decays supplied (duplicates removed); (d) on the longer arrays of (b) two random midpoint placements of that '
+        'kind per extrema placement (sampled, not enumerated). Cases outside the quantified class (extrema closer than two samples or not '
+        'alternating, a midpoint outside its flank, two midpoints of a kind on one flank) are counted as skip. non-trivial = >= 3 extrema')
+EXHAUSTIVE = {'quick': True, 'thorough': True}   # streams (b) and (c); (a) and (d) are sampled
+ASSUMPTIONS = ['consecutive extrema at least two samples apart; peaks and troughs alternate; a supplied midpoint that does not coincide '
+               'with an extremum lies on a flank of its kind (rise: after a trough / before a peak), at most one of a kind per flank',
                'model is exact rational arithmetic in units of pi/2; implementation values compared within 1e-6 of a quarter turn, '
-               'NaN pattern exactly']
+               'NaN pattern exactly',
+               'every case evaluated in Coq is also tested against the precondition of the theorems (wf_cpsb, proved sound for wf_cps): a '
+               'generated in-domain case outside wf_cps is reported by the runner like a model mismatch; C17_quantified_inputs_are_wellformed '
+               'proves that the class above implies wf_cps',
+               'statement oracle: strict advance on every step inside the span except the wrap (from a phase >= 0 to -pi, landing on a '
+               'trough); linearity between cyclepoints is not in the statement and is checked by the model comparison only']
 TRUST = ['np.interp is modelled as piecewise-linear interpolation with constant extension']
 
 
@@ -32,32 +51,62 @@ def _placements(n):
     yield from rec(0, [])
 
 
+def _kinds(ext, first_peak):
+    peaks = [e for k, e in enumerate(ext) if (k % 2 == 0) == first_peak]
+    troughs = [e for k, e in enumerate(ext) if (k % 2 == 0) != first_peak]
+    return peaks, troughs
+
+
+def _mid_lists(ext, first_peak, mids, lead, trail):
+    """One midpoint per flank (mids), optionally one before the first (lead) / after the last (trail) extremum."""
+    rises, decays = [], []
+    for k, m in enumerate(mids):
+        a_is_peak = (k % 2 == 0) == first_peak
+        (decays if a_is_peak else rises).append(m)
+    if lead is not None:        # the flank coming from an extremum outside the array
+        (rises if first_peak else decays).insert(0, lead)
+    if trail is not None:
+        last_is_peak = ((len(ext) - 1) % 2 == 0) == first_peak
+        (decays if last_is_peak else rises).append(trail)
+    return rises, decays
+
+
+def _case(n, peaks, troughs, rises, decays, mode, tag):
+    return {'kind': 'exhaustive/%s/%s' % (tag, mode), 'n': n, 'peaks': peaks, 'troughs': troughs,
+            'rises': None if mode == 'decays_only' else rises, 'decays': None if mode == 'rises_only' else decays}
+
+
 def cases(rng, tier):
     out = []
-    L = 9 if tier == 'quick' else 11
+    L, E = MAX_N[tier], ENUM_N[tier]
     for n in range(3, L + 1):
         for ext in _placements(n):
             for first_peak in (True, False):
-                peaks = [e for k, e in enumerate(ext) if (k % 2 == 0) == first_peak]
-                troughs = [e for k, e in enumerate(ext) if (k % 2 == 0) != first_peak]
+                peaks, troughs = _kinds(ext, first_peak)
                 out.append({'kind': 'exhaustive/nomid', 'n': n, 'peaks': peaks, 'troughs': troughs, 'rises': None, 'decays': None})
+                if n <= E:
+                    # every midpoint placement; 'rises_only' / 'decays_only' projections are deduplicated
+                    seen = set()
+                    leads = [None] + list(range(0, ext[0]))
+                    trails = [None] + list(range(ext[-1] + 1, n))
+                    for mids in itertools.product(*[range(a, b + 1) for a, b in zip(ext, ext[1:])]):
+                        for lead in leads:
+                            for trail in trails:
+                                rises, decays = _mid_lists(ext, first_peak, mids, lead, trail)
+                                for mode in ('both', 'rises_only', 'decays_only'):
+                                    c = _case(n, peaks, troughs, rises, decays, mode, 'allmid')
+                                    key = (None if c['rises'] is None else tuple(c['rises']), None if c['decays'] is None else tuple(c['decays']))
+                                    if key not in seen:
+                                        seen.add(key)
+                                        out.append(c)
+                    continue
                 for _ in range(2):
-                    rises, decays = [], []
-                    for k, (a, b) in enumerate(zip(ext, ext[1:])):
-                        m = rng.randint(a, b)
-                        a_is_peak = (k % 2 == 0) == first_peak
-                        (decays if a_is_peak else rises).append(m)
-                    # a midpoint may also precede the first / follow the last extremum (the flank to an extremum outside)
-                    if ext[0] > 0 and rng.random() < 0.5:
-                        m = rng.randint(0, ext[0] - 1)
-                        (rises if first_peak else decays).insert(0, m)
-                    if ext[-1] < n - 1 and rng.random() < 0.5:
-                        m = rng.randint(ext[-1] + 1, n - 1)
-                        last_is_peak = ((len(ext) - 1) % 2 == 0) == first_peak
-                        (decays if last_is_peak else rises).append(m)
+                    mids = [rng.randint(a, b) for a, b in zip(ext, ext[1:])]
+                    lead = rng.randint(0, ext[0] - 1) if ext[0] > 0 and rng.random() < 0.5 else None
+                    trail = rng.randint(ext[-1] + 1, n - 1) if ext[-1] < n - 1 and rng.random() < 0.5 else None
+                    rises, decays = _mid_lists(ext, first_peak, mids, lead, trail)
                     mode = rng.choice(['both', 'both', 'rises_only', 'decays_only'])
-                    out.append({'kind': 'exhaustive/mid/' + mode, 'n': n, 'peaks': peaks, 'troughs': troughs,
-                                'rises': None if mode == 'decays_only' else rises, 'decays': None if mode == 'rises_only' else decays})
+                    out.append(_case(n, peaks, troughs, rises, decays, mode, 'mid'))
     nsig = 70 if tier == 'quick' else 700
     for _ in range(nsig):
         s = gen.signal(rng, max_len=260)
@@ -65,6 +114,38 @@ def cases(rng, tier):
                     'boundary': rng.choice([0, 0, 1, 5]), 'first': rng.choice(['peak', 'trough', None]),
                     'mid': rng.choice(['both', 'both', 'none', 'rises_only', 'decays_only'])})
     return out
+
+
+def out_of_domain(n, p, t, r, d):
+    """Reason why a cyclepoint set is outside the class the property quantifies over (None = inside).
+    The class: >= 1 peak and >= 1 trough, alternating, consecutive extrema >= 2 samples apart, all indices inside the
+    array; every supplied midpoint that does not coincide with an extremum lies on a flank of its kind (rise: the
+    nearest extremum before it, if any, is a trough and the nearest after it, if any, is a peak; decay: mirrored), and
+    there is at most one such midpoint of a kind per flank.  (Proofs/Phase.v: cps_domain, cps_domain_wf.)"""
+    if len(p) == 0 or len(t) == 0:
+        return 'no extrema'
+    allp = list(p) + list(t) + list(r or []) + list(d or [])
+    if any(i < 0 or i >= n for i in allp):
+        return 'cyclepoint outside the array'
+    ext = sorted([(i, 'p') for i in p] + [(i, 't') for i in t])
+    if any(b[0] - a[0] < 2 for a, b in zip(ext, ext[1:])):
+        return 'extrema closer than two samples'
+    if any(a[1] == b[1] for a, b in zip(ext, ext[1:])):
+        return 'extrema do not alternate'
+    pos = [e[0] for e in ext]
+    eset = set(pos)
+    for ms, before, after in ((r, 't', 'p'), (d, 'p', 't')):
+        gaps = set()
+        for m in sorted(set(ms or [])):
+            if m in eset:
+                continue
+            j = bisect.bisect_left(pos, m)
+            if (j > 0 and ext[j - 1][1] != before) or (j < len(ext) and ext[j][1] != after):
+                return 'midpoint outside its flank'
+            if j in gaps:
+                return 'two midpoints of a kind on one flank'
+            gaps.add(j)
+    return None
 
 
 def _cps(c):
@@ -90,11 +171,9 @@ def run_impl(c):
         n, p, t, r, d, sig = _cps(c)
     except Exception as e:
         return {'skip': 'cyclepoints raised %s' % exc_kind(e)}
-    if len(p) == 0 or len(t) == 0:
-        return {'skip': 'no extrema'}
-    ext = sorted(p + t)
-    if any(b - a < 2 for a, b in zip(ext, ext[1:])):
-        return {'skip': 'extrema closer than two samples'}
+    why = out_of_domain(n, p, t, r, d)
+    if why:
+        return {'skip': why}
     out = {'n': n, 'peaks': p, 'troughs': t, 'rises': r, 'decays': d}
     x = np.zeros(n) if sig is None else sig
     try:
@@ -141,13 +220,22 @@ def oracle(c, o):
     for i in d:
         if i not in ext and abs(pha[i] - math.pi / 2) > tol:
             return 'phase at decay midpoint %d is %r, expected +pi/2' % (i, pha[i])
+    for i in range(F, Lx + 1):
+        if not (-math.pi - tol <= pha[i] <= math.pi + tol):
+            return 'phase %r outside [-pi, pi] at sample %d' % (pha[i], i)
+    # "between consecutive cyclepoints advances monotonically, the only decreases being the +pi to -pi wrap at
+    # troughs": every step inside the span is a (strict) advance, except a step that lands on a trough, takes the
+    # value -pi there and comes from a phase that had advanced past the peak (>= 0).  Linearity is not in the statement.
     ts = set(t)
     for i in range(F, Lx):
         a, b = pha[i], pha[i + 1]
-        if not (-math.pi - tol <= a <= math.pi + tol):
-            return 'phase %r outside [-pi, pi] at sample %d' % (a, i)
-        if b < a - tol and (i + 1) not in ts:
-            return 'phase decreases from sample %d to %d (%r -> %r) away from a trough' % (i, i + 1, a, b)
+        if b > a:
+            continue
+        if (i + 1) in ts and abs(b + math.pi) <= tol and a >= -tol:
+            continue
+        if (i + 1) in ts:
+            return 'step into trough %d is neither an advance nor the wrap from a phase >= 0 to -pi (%r -> %r)' % (i + 1, a, b)
+        return 'phase does not advance from sample %d to %d (%r -> %r) away from a trough' % (i, i + 1, a, b)
     return None
 
 
@@ -156,7 +244,7 @@ def nontrivial(c, o):
 
 
 def kind_of(c, o):
-    return c['kind'] + ('/skip' if 'skip' in o else '/err' if 'err' in o else '')
+    return c['kind'] + ('/skip: ' + o['skip'] if 'skip' in o else '/err' if 'err' in o else '')
 
 
 def _nl(xs):
